@@ -571,6 +571,28 @@ impl Session {
         true
     }
 
+    /// a second skinned mesh that shares the inverse-bind-pose asset of `src` (two instances of one rig, or two primitives of
+    /// one mesh) but has its own joint list
+    pub fn write_skinned_shared(&mut self, peer: u32, h: u32, src: u32, joint_handles: &[u32]) -> bool {
+        let (Some(e), Some(se)) = (self.local_entity(peer, h), self.local_entity(peer, src)) else { return false };
+        let mut joints = vec![];
+        for j in joint_handles {
+            if let Some(je) = self.local_entity(peer, *j) {
+                joints.push(je);
+            }
+        }
+        let w = self.peers[peer as usize].app.world_mut();
+        let Some(handle) = w.get_entity(se).and_then(|x| x.get::<SkinnedMesh>().map(|s| s.inverse_bindposes.clone())) else { return false };
+        let n = w.resource::<Assets<SkinnedMeshInverseBindposes>>().get(&handle).map(|p| p.len()).unwrap_or(0);
+        if w.get_entity(e).is_none() || joints.len() != n {
+            return false;
+        }
+        w.entity_mut(e).insert(SkinnedMesh { inverse_bindposes: handle, joints });
+        self.trace.push(json!({"ev":"op","op":"write_skinned_shared","peer":peer,"h":h,"src":src,"joints":joint_handles,
+            "uuid": self.handle_uuid.get(&h).map(|u| hex(u.as_bytes()))}));
+        true
+    }
+
     /// reflect bytes of one component of one local entity (what the snapshot prints for it)
     pub fn comp_bytes(&mut self, peer: u32, e: Entity, ty: Ty) -> Option<String> {
         let world = self.peers[peer as usize].app.world_mut();
